@@ -40,7 +40,7 @@ def gen(rng, tier, no, wide=False):
     nf = rng.choice([1, 1, 1, 2, 2, 3])
     fl = []
     for _ in range(nf):
-        k = rng.choice(["iteration", "iterIndex", "rank", "timeRange", "name", "name", "gpu", "gpu", "cpu", "cpu", "memcopy"])
+        k = rng.choice(["iteration", "iterIndex", "rank", "timeRange", "timeRange", "name", "name", "gpu", "gpu", "cpu", "cpu", "memcopy"])
         if k == "iteration":
             fl.append([k, sorted(set(rng.sample(steps + [-1, 999], rng.randint(1, 2))))])
         elif k == "iterIndex":
@@ -51,7 +51,7 @@ def gen(rng, tier, no, wide=False):
             a = rng.choice(times)
             b = rng.choice([t for t in times if t >= a])
             zs = [e["ts"] - t0 for e in xs if e["dur"] == 0 and e["ts"] - t0 >= a]
-            if zs and rng.random() < 0.35:
+            if zs and rng.random() < 0.5:
                 b = rng.choice(zs)          # the range ends exactly where a zero-duration event sits
             fl.append([k, a, b])
         elif k == "name":
